@@ -97,6 +97,9 @@ def validate(ctx, events):
         fails.append({"error": "no end record (crash / timeout)"})
     elif any(d != 1 for d in end.get("impl_drops", [])):
         fails.append({"error": "drop counters at exit differ from one per object", "impl_drops": end.get("impl_drops")})
+    if end is not None and end.get("unwind_drops") is not None and list(end["unwind_drops"]) != [0, 1]:
+        fails.append({"error": "an object shared with a thread that panicked while holding a reference was not dropped exactly once, "
+                      "after the last handle (expected 0 drops while the creator holds it, 1 afterwards)", "unwind_drops": end["unwind_drops"]})
     for o, rec in sorted(objs.items()):
         ans = ctx.driver.ask(f"conc {rec['t0']} {rec['h0']} " + " ".join(rec["toks"]))
         ctx.bump("driver_requests")
@@ -167,6 +170,13 @@ def scan_runtime():
     body = m.group(1) if m else ""
     if len(re.findall(r"refs\s*\.\s*fetch_add\s*\(\s*1\s*,", body)) != 1 or re.search(r"refs\s*\.\s*(load|store)\s*\(", body):
         broken.append("wrapper.rs retain: expected exactly one refs.fetch_add(1, _)")
+    # "for all histories" includes more than 2^32 outstanding references (a 64-bit address space
+    # holds them): a counter narrower than the pointer width wraps and the implementation is
+    # dropped while referenced. The model counts in unbounded naturals; the runtime's counter
+    # must be pointer-wide (no run of the bench could make 2^32 clones within the quick tier).
+    narrow = sorted(set(re.findall(r"\bAtomic(U8|I8|U16|I16|U32|I32)\b", text)))
+    if narrow:
+        broken.append("wrapper.rs counts references in an atomic narrower than the pointer width: " + ", ".join("Atomic" + x for x in narrow))
     return broken
 
 
